@@ -52,6 +52,8 @@ def make_fit_file(ctx, rng, d, n_rec, with_fluxes, n_models=None, many=False):
                                     rng.uniform(0, 360), rng.uniform(-90, 90)) + '\n')
     out = os.path.join(d, 'fit.out')
     sel = [('N', int(rng.integers(1, n_models + 1))), ('A', 0), ('N', 1)][int(rng.integers(3))] if not many else ('N', 2)
+    if n_models >= 40:
+        sel = ('A', 0)          # keep every model: records of tens of kilobytes
     kw = dict(data=data, filter_names=bn, apertures=theta * u.arcsec, model_dir=d, output=out, n_data_min=1,
               extinction_law=law, av_range=(0.0, 20.0), distance_range=[1.0, 2.0] * u.kpc, output_format=sel,
               output_convolved=with_fluxes)
@@ -155,16 +157,23 @@ def run(ctx):
     ctx.extra['exhaustive_subspace'] = 'truncation offsets 0..len-1 of every generated file'
     ctx.assume('a crash leaves a byte prefix of the file (supported by the strace observation: only sequential write()s on the output fd, no seek/truncate/rename)',
                'the end offset of every record is observed at the writing boundary (position of the output handle after each FitInfoFile.write), so nothing is assumed about the on-disk layout', 'a clean end after fewer records than were complete is an exact prefix and is accepted')
-    ctx.require_events('truncated-read', 'outcome:exception', 'outcome:clean-end', 'enospc-run', 'FitInfoFile.write:post')
-    ctx.require_regimes('with-fluxes', 'without-fluxes', 'records=1', 'records>=3', 'cut:before-first-record-complete', 'cut:in-later-record', 'cut:on-boundary')
-    n_files = 4 if ctx.quick else 60
+    ctx.require_events('truncated-read', 'outcome:exception', 'outcome:clean-end', 'enospc-run', 'enospc:prefix-on-disk', 'FitInfoFile.write:post')
+    ctx.require_regimes('with-fluxes', 'without-fluxes', 'records=1', 'records>=3', 'cut:before-first-record-complete', 'cut:in-later-record', 'cut:on-boundary',
+                        'records:large', 'enospc:over-an-existing-longer-file', 'enospc:over-an-earlier-run-of-the-same-job')
+    n_files = 8 if ctx.quick else 64
+    prev_blob = None
     for ifile in range(n_files):
         n_rec = [1, 3, 2, 4][ifile % 4]
-        with_fluxes = bool(ifile % 2)
+        with_fluxes = bool((ifile // 4) % 2)          # every record count with and without stored fluxes
         d = ctx.newdir('c19')
         frng = np.random.default_rng([ctx.seed, 19, ifile])         # same files in every shard: offsets are partitioned
+        # record sizes from a few hundred bytes to tens of kilobytes (number of models kept per source)
+        big = ifile % 8 in (5, 6)
+        nmod = int(frng.choice([40, 150, 400])) if big else None
+        if big:
+            ctx.regime('records:large')
         try:
-            (path, kw), rec_ends = observed_record_ends(make_fit_file, ctx, frng, d, n_rec, with_fluxes)
+            (path, kw), rec_ends = observed_record_ends(make_fit_file, ctx, frng, d, n_rec, with_fluxes, n_models=nmod, many=False)
         except Exception as exc:
             ctx.violation('fit-raised', 'fit() raised while producing the file: %r' % (exc,), {'n_rec': n_rec})
             continue
@@ -182,7 +191,17 @@ def run(ctx):
         work = os.path.join(d, 'trunc.out')
         shutil.copyfile(path, work)
         wit0 = {'file': ifile, 'n_records': n_rec, 'with_fluxes': with_fluxes, 'size': size, 'record_ends': rec_ends}
-        for t in range(size - 1, -1, -1):
+        # every offset for files up to 20 kB; beyond that every offset within 96 bytes of a record end or of the start, and a stride elsewhere
+        if size <= 20000:
+            offsets = range(size - 1, -1, -1)
+        else:
+            near = set()
+            for e in [0] + rec_ends:
+                near.update(range(max(0, e - 96), min(size, e + 96)))
+            near.update(range(0, size, max(1, size // 4000)))
+            offsets = sorted(near, reverse=True)
+            ctx.extra['exhaustive_subspace'] = 'truncation offsets 0..len-1 of every generated file up to 20 kB; larger files: all offsets within 96 bytes of a record end + a stride'
+        for t in offsets:
             os.truncate(work, t)
             if not ctx.mine(t):
                 continue
@@ -199,16 +218,43 @@ def run(ctx):
         # ---- ENOSPC after N bytes on the writing side -----------------------------------
         import sedfitter.fit_info as fi
         stride = max(1, size // (12 if ctx.quick else 60))
+        fin_ = fi.FitInfoFile(path, 'r')
+        infos_full = list(fin_)
+        fin_.close()
+        ref_pad = b'\0' * size
         for N in range(ctx.shard % stride, size, stride * ctx.nshards if ctx.nshards <= stride else stride):
             out2 = os.path.join(d, 'enospc_%d.out' % N)
+
+            seen = {'proxies': 0, 'writes': 0}
+            # every third run: the output name already holds an older, longer result file and the records are written
+            # through the writer class directly (fit() itself asks before deleting an existing output)
+            stale = prev_blob is not None and (N // stride) % 3 == 1
+            if stale:
+                if (N // stride) % 2:
+                    with open(out2, 'wb') as fo_:
+                        fo_.write(prev_blob + prev_blob + ref_pad)
+                else:
+                    # ... an earlier run of the same job with other numbers: records of the same size at the same places
+                    fo_ = fi.FitInfoFile(out2, 'w')
+                    for inf_ in infos_full + infos_full[-1:]:
+                        old_ = inf_.copy()
+                        old_.chi2 = np.asarray(inf_.chi2) + 1.0
+                        old_.av = np.asarray(inf_.av) * 0.5
+                        fo_.write(old_)
+                    fo_.close()
+                    ctx.regime('enospc:over-an-earlier-run-of-the-same-job')
+                ctx.regime('enospc:over-an-existing-longer-file')
 
             class Proxy(object):
                 def __init__(self, real):
                     self.real, self.left = real, N
+                    seen['proxies'] += 1
 
                 def write(self, b):
                     b = bytes(b)
+                    seen['writes'] += 1
                     if len(b) > self.left:
+                        seen['failed'] = True
                         self.real.write(b[:self.left])
                         self.left = 0
                         self.real.flush()
@@ -221,34 +267,62 @@ def run(ctx):
 
             def failing_open(p, mode='r', *a, **k):
                 f = open(p, mode, *a, **k)
-                return Proxy(f) if ('w' in mode and os.path.abspath(p) == os.path.abspath(out2)) else f
+                return Proxy(f) if (('w' in mode or 'a' in mode or '+' in mode) and os.path.abspath(p) == os.path.abspath(out2)) else f
 
             fi.open = failing_open
             from sedfitter import fit
             try:
                 kw2 = dict(kw, output=out2)
                 try:
-                    fit(**kw2)
+                    if stale:
+                        del WRITE_ENDS[:]
+                        fo_ = fi.FitInfoFile(out2, 'w')
+                        for inf_ in infos_full:
+                            fo_.write(inf_)
+                        fo_.close()
+                    else:
+                        fit(**kw2)
                     raised = False
                 except OSError:
                     raised = True
             finally:
                 del fi.open
+            ends_here = [e for e in WRITE_ENDS if e is not None] if stale else rec_ends
+            del WRITE_ENDS[:]
             ctx.event('enospc-run')
             import gc
             gc.collect()
+            if seen['writes'] == 0:
+                # the fault was never injected (the writer does not go through sedfitter.fit_info.open / .write): nothing observed
+                ctx.inconclusive('ENOSPC proxy saw no write on the output (%d proxies created): the writer is not reached through sedfitter.fit_info.open' % seen['proxies'])
+                if os.path.exists(out2):
+                    os.remove(out2)
+                continue
+            if not seen.get('failed'):
+                ctx.event('enospc:fault-not-reached')         # fewer bytes were written than the injection point
+                if os.path.exists(out2):
+                    os.remove(out2)
+                continue
             if not raised:
                 ctx.violation('enospc:swallowed', 'a full disk while writing was not reported as an error', dict(wit0, N=N))
-            blob = open(out2, 'rb').read()
+            blob = open(out2, 'rb').read() if os.path.exists(out2) else b''
             ref = open(path, 'rb').read()
-            if blob != ref[:len(blob)] or len(blob) > N:
-                ctx.violation('enospc:not-a-prefix', 'bytes on disk after a failed write are not a prefix of the complete file', dict(wit0, N=N, on_disk=len(blob)))
-                continue
-            n_complete = sum(1 for e in rec_ends if e <= len(blob))
-            got, exc = read_truncated(out2)
-            judge(ctx, got, exc, full, n_complete, dict(wit0, N=N, on_disk=len(blob), exception=repr(exc)[:120]), 'enospc')
+            if blob == ref[:len(blob)] and len(blob) <= N:
+                ctx.event('enospc:prefix-on-disk')
+                n_complete = sum(1 for e in ends_here if e <= len(blob))
+            elif stale and len(blob) <= N:
+                n_complete = sum(1 for e in ends_here if e <= len(blob))
+            else:
+                # not a byte prefix (not required by the statement): only "an exact prefix of the records, or an error" is judged
+                ctx.event('enospc:not-a-byte-prefix')
+                n_complete = n_rec
+            got, exc = read_truncated(out2) if os.path.exists(out2) else ([], None)
+            judge(ctx, got, exc, full, n_complete, dict(wit0, N=N, on_disk=len(blob), over_existing_file=stale, exception=repr(exc)[:120]),
+                  'enospc' if not stale else 'enospc-over-existing')
             ctx.case(('enospc', ifile, N), nontrivial=len(blob) > rec_ends[0] // 2)
-            os.remove(out2)
+            if os.path.exists(out2):
+                os.remove(out2)
+        prev_blob = open(path, 'rb').read()
         ctx.rmdir(d)
 
     if not ctx.quick and ctx.shard < 4:
@@ -326,16 +400,34 @@ def strace_run(ctx, rng):
     nwrites = 0
     total = 0
     bad = []
+    import re
+    unparsed = 0
+    pending = {}          # pid -> call left unfinished on the output file
     for line in open(log, errors='replace'):
-        if 'child.out' not in line:
-            continue
-        call = line.split('(', 1)[0].split()[-1]
-        if call == 'write':
-            nwrites += 1
+        m_res = re.match(r'^(\d+)\s+<\.\.\. (\w+) resumed>', line)
+        if m_res and pending.get(m_res.group(1)) == m_res.group(2) == 'write':
+            pending.pop(m_res.group(1))
             try:
                 total += int(line.rsplit('=', 1)[1].strip().split()[0])
             except Exception:
-                pass
+                unparsed += 1
+            continue
+        if 'child.out' not in line:
+            continue
+        m_call = re.match(r'^(?:(\d+)\s+)?(\w+)\(', line)
+        if not m_call:
+            unparsed += 1
+            continue
+        call = m_call.group(2)
+        if call == 'write':
+            nwrites += 1
+            if '<unfinished' in line:
+                pending[m_call.group(1)] = 'write'
+                continue
+            try:
+                total += int(line.rsplit('=', 1)[1].strip().split()[0])
+            except Exception:
+                unparsed += 1
         elif call == 'openat':
             if 'O_APPEND' in line or ('O_WRONLY' in line and 'O_TRUNC' not in line):
                 pass
@@ -351,7 +443,9 @@ def strace_run(ctx, rng):
     ctx.extra['strace_bytes_written'] = total
     if bad:
         ctx.violation('strace:non-append-operation', 'the output file saw an operation other than sequential write()', {'calls': bad[:10]})
-    if total != os.path.getsize(out2):
+    if nwrites == 0 or unparsed or pending:
+        ctx.inconclusive('strace log not fully understood (%d writes on the output, %d unparsed lines, %d unfinished calls)' % (nwrites, unparsed, len(pending)))
+    elif total != os.path.getsize(out2):
         ctx.violation('strace:bytes', 'bytes written by write() calls do not add up to the file', {'written': total, 'size': os.path.getsize(out2)})
     ctx.case(('strace', nwrites), nontrivial=True)
     ctx.rmdir(d)
